@@ -42,6 +42,9 @@ func c10Check(x *explore.Ctx, prog string, input interface{}) {
 		if what, bad := impl.HasAlien(norm); bad {
 			fail("type", "a result built only from JSON-representable values", "result contains "+what+": "+impl.Render(norm))
 		}
+		if where, bad := c10NilContainer(v, "result"); bad {
+			fail("nil-array", "an array or object without members that encodes as [] / {}", where+" is a nil Go slice or map: $type calls it an array/object, json.Marshal and $string write null")
+		}
 		b, merr := json.Marshal(v)
 		if merr != nil {
 			fail("marshal", "a result that can be marshalled", "json.Marshal: "+merr.Error())
@@ -153,6 +156,31 @@ func errText(err error) string {
 
 var c10Wrappers = []string{"@", "[@]", `{"k": @}`, "function(){@}()", "$map([1], function($v){@})", "[@][0]", "(@)", `{"k": [@]}.k`, "$append([], @)", "@ ~> function($r){$r}"}
 
+// c10NilContainer finds a typed nil slice or map inside a result.
+func c10NilContainer(v interface{}, where string) (string, bool) {
+	switch x := v.(type) {
+	case []interface{}:
+		if x == nil {
+			return where, true
+		}
+		for i, e := range x {
+			if w, bad := c10NilContainer(e, where+"["+itoa(i)+"]"); bad {
+				return w, true
+			}
+		}
+	case map[string]interface{}:
+		if x == nil {
+			return where, true
+		}
+		for k, e := range x {
+			if w, bad := c10NilContainer(e, where+"."+k); bad {
+				return w, true
+			}
+		}
+	}
+	return "", false
+}
+
 var c10EdgeNumbers = []string{"0", "-0", "1", "-1", "2", "-2", "10", "-10", "0.5", "3", "309", "1025", "1e308", "-1e308", "5e-324", "1e21", "-308", "308", "1.7e308", "-1.7e308", "1.7976931348623157e308"}
 
 var c10NumShapes = []string{"$power(X, Y)", "X * Y", "X / Y", "X + Y", "X - Y", "X % Y", "$sum([X, Y])", "$average([X, Y])", "$max([X, Y])", "$min([X, Y])", "$sqrt(X)", "$abs(X)",
@@ -212,6 +240,58 @@ func init() {
 				in := c.Choose(len(c05Docs()))
 				c.Done()
 				c10Check(x, strings.Replace(w, "@", p, -1), c05Docs()[in])
+			}},
+			{Name: "no-value-consumers", Quick: []int{1}, ShardDepth: 2, Run: func(c *explore.Chooser, x *explore.Ctx, _ int) {
+				// ErrUndefined is reported exactly when the expression has no value: a sub-expression without a value
+				// handed to something that maps "no value" to a value must give that value, in every calling form
+				producers := []struct{ direct, fn, arg string }{
+					{"nothing", "function($v){$v.zz}", "{}"},
+					{"$max([])", "$max", "[]"},
+					{`$lookup({}, "zz")`, `$lookup(?, "zz")`, "{}"},
+					{"[][0]", "function($v){$v[0]}", "[]"},
+					{`$substringBefore(nothing, "a")`, "function($v){$v.nothing ~> $uppercase}", "{}"},
+					{"(function(){nothing})()", "function(){nothing}", "1"},
+				}
+				consumers := []struct{ call, fn, want string }{
+					{"$exists(X)", "$exists", "false"},
+					{"$count(X)", "$count", "0"},
+					{"[X]", "function($v){[$v]}", "[]"},
+					{`{"k": X}`, `function($v){{"k": $v}}`, "{}"},
+					{"X = 1", "function($v){$v = 1}", "false"},
+					{`$append(X, "t")`, `$append(?, "t")`, `"t"`},
+					{`X & "s"`, `function($v){$v & "s"}`, `"s"`},
+					{"$not($exists(X))", "($exists ~> $not)", "true"},
+				}
+				p := producers[c.Choose(len(producers))]
+				k := consumers[c.Choose(len(consumers))]
+				form := c.Choose(5)
+				c.Done()
+				var prog string
+				switch form {
+				case 0:
+					prog = strings.Replace(k.call, "X", "("+p.direct+")", 1)
+				case 1:
+					prog = "(" + p.direct + ") ~> " + k.fn
+				case 2: // composed function applied to the argument
+					prog = "(" + p.fn + " ~> " + k.fn + ")(" + p.arg + ")"
+				case 3: // the same through variables
+					prog = "($f := " + p.fn + "; $g := " + k.fn + "; $h := $f ~> $g; $h(" + p.arg + "))"
+				default:
+					prog = "(" + p.arg + " ~> " + p.fn + ") ~> " + k.fn
+				}
+				if (form == 1 || form == 4) && strings.HasPrefix(k.fn, "$append(?") {
+					// v ~> $append(?, "t") with a missing v: the chain hands over "no value" as the placeholder's argument
+				}
+				got := impl.Run(prog, nil)
+				x.Eval()
+				x.Validated()
+				x.Describe(func() string { return prog })
+				if got.Kind != impl.Value || impl.Render(got.Val) != k.want {
+					x.Violation("value", "value:"+prog, explore.Detail{Program: prog, Expected: "value " + k.want + " (the consumer maps no value to a value)", Observed: got.String()})
+				}
+				x.Nontrivial()
+				x.Outcome(got.Short())
+				c10Check(x, prog, nil)
 			}},
 			{Name: "numeric-edges", Quick: []int{1}, Run: func(c *explore.Chooser, x *explore.Ctx, _ int) {
 				shape := c10NumShapes[c.Choose(len(c10NumShapes))]
